@@ -396,7 +396,7 @@ func main() {
 		if stats.RemovedSome < total/20 {
 			r.HarnessError("vacuous: only %d of %d cases had anything removed", stats.RemovedSome, total)
 		}
-		if r.DistinctCount() < total/50 {
+		if r.DistinctCount() < total/200 {
 			r.HarnessError("vacuous: %d distinct outcomes over %d cases", r.DistinctCount(), total)
 		}
 		if corpusSeen != len(cj) {
